@@ -138,7 +138,7 @@ def gen_case(rng, k):
     defs = []
     locs = []
     fam = rng.choice(["arith", "arith", "arith", "eqonly", "eqonly", "unused", "passon", "where", "boolp", "lists",
-                      "ordonly", "eqlit"])
+                      "ordonly", "eqlit", "recursive"])
     if fam == "arith" or np_ == 1 and fam in ("eqonly", "ordonly", "unused"):
         body = gen_body(rng, params)
     elif fam == "eqonly":      # some parameters occur only as operands of == / !=
@@ -176,6 +176,14 @@ def gen_case(rng, k):
             body = ("call", rng.choice(["abs", "sqrt", "sqr", "cbrt"]), [idn(params[0])])
         if len(params) > 1 and rng.random() < 0.5:
             body = bn("*", body, idn(params[1]))
+    elif fam == "recursive":   # the function calls itself (its own type is not yet generalised there)
+        cnt = params[-1]
+        step = [idn(p) if rng.random() < 0.5 else bn("*", idn(p), num("2")) for p in params[:-1]]
+        if step and rng.random() < 0.3:
+            step[0] = bn("*", step[0], step[0])          # forces that parameter to be dimensionless
+        base = gen_body(rng, params[:-1]) if params[:-1] else num("1")
+        rec = ("call", fname, step + [bn("-", idn(cnt), num("1"))])
+        body = ("if", bn("<=", idn(cnt), num("0")), base, rec if rng.random() < 0.6 else bn("+", rec, base))
     elif fam == "where":       # parameters reach the body only through where-locals
         locs.append(("wl0", None, gen_body(rng, params[:1])))
         if len(params) > 1:
